@@ -93,9 +93,41 @@ fn run_worker(batch: u64, start: u64, step: u64, count: u64) -> i32 {
     EXIT_OK
 }
 
-fn violation_sig(env: &Env, prop: &str, tape: &[u32], want: &str) -> Option<String> {
-    let o = run_episode(Tape::from_values(tape.to_vec()), env, true);
-    o.violations.iter().find(|v| v.prop == prop && v.sig == want).map(|v| v.sig.clone())
+/// Run one episode in a child process (the parent never draws a frame itself: an episode
+/// may hang, see the known finding `c17.hang.layout-solver`).  `None` when the child did
+/// not finish within `limit` or its output could not be read.
+fn exec_episode(req: &Value, limit: std::time::Duration) -> Option<Value> {
+    use std::io::Write as _;
+    let exe = std::env::current_exe().ok()?;
+    let mut child = Command::new(&exe).arg("exec").stdin(Stdio::piped()).stdout(Stdio::piped()).stderr(Stdio::null()).spawn().ok()?;
+    child.stdin.take()?.write_all(req.to_string().as_bytes()).ok()?;
+    let mut out = child.stdout.take()?;
+    let (tx, rx) = std::sync::mpsc::channel();
+    std::thread::spawn(move || {
+        let mut text = String::new();
+        let _ = std::io::Read::read_to_string(&mut out, &mut text);
+        let _ = tx.send(text);
+    });
+    match rx.recv_timeout(limit) {
+        Ok(text) => {
+            let _ = child.wait();
+            text.lines().rev().find_map(|l| serde_json::from_str::<Value>(l).ok())
+        }
+        Err(_) => {
+            let _ = child.kill();
+            let _ = child.wait();
+            None
+        }
+    }
+}
+
+fn tape_of(v: &Value) -> Vec<u32> {
+    v["tape"].as_array().map(|a| a.iter().filter_map(|x| x.as_u64().map(|x| x as u32)).collect()).unwrap_or_default()
+}
+
+fn violation_sig(limit: std::time::Duration, prop: &str, tape: &[u32], want: &str) -> Option<String> {
+    let o = exec_episode(&json!({"tape": tape}), limit)?;
+    o["violations"].as_array()?.iter().find(|v| v["prop"].as_str() == Some(prop) && v["sig"].as_str() == Some(want)).map(|_| want.to_string())
 }
 
 fn run_check(prop: &str, tier: &str, batch: u64) -> i32 {
@@ -356,25 +388,40 @@ fn run_check(prop: &str, tier: &str, batch: u64) -> i32 {
             } else if sig.starts_with("c16.precedence") {
                 json!({"engine": "tuisim", "property": prop, "signature": sig, "kind": "precedence", "case_seed": seed.to_string(), "detail": detail})
             } else {
-                let original = run_episode(Tape::from_seed(*seed), &env, true).tape;
-                let (small, used) = simcore::shrink::shrink_timed(&original, sig, 300, std::time::Duration::from_secs(20), |t| violation_sig(&env, prop, t, sig));
-                let o = run_episode(Tape::from_values(small.clone()), &env, true);
-                let d = o.violations.iter().find(|v| v.prop == prop && &v.sig == sig).map_or(detail.clone(), |v| v.detail.clone());
-                json!({
-                    "engine": "tuisim",
-                    "property": prop,
-                    "signature": sig,
-                    "kind": "episode",
-                    "seed": seed.to_string(),
-                    "detail": d,
-                    "tape": small,
-                    "original_tape_len": original.len(),
-                    "shrink_executions": used,
-                    "episode": o.sample,
-                    "stage": o.stage,
-                    "frames": o.frames,
-                    "event_hash": format!("{:016x}", o.full_hash),
-                })
+                // every execution of the shrinker runs in a child process under the hang limit
+                let limit = hang_limit + std::time::Duration::from_secs(5);
+                let original = exec_episode(&json!({"seed": seed.to_string()}), limit).map(|o| tape_of(&o)).unwrap_or_default();
+                let (small, used) = if original.is_empty() {
+                    (original.clone(), 0)
+                } else {
+                    simcore::shrink::shrink_timed(&original, sig, 200, std::time::Duration::from_secs(30), |t| violation_sig(limit, prop, t, sig))
+                };
+                let o = if small.is_empty() { None } else { exec_episode(&json!({"tape": small}), limit) }.unwrap_or(Value::Null);
+                let d = o["violations"]
+                    .as_array()
+                    .and_then(|a| a.iter().find(|v| v["prop"].as_str() == Some(prop) && v["sig"].as_str() == Some(sig.as_str())))
+                    .and_then(|v| v["detail"].as_str().map(str::to_string))
+                    .unwrap_or_else(|| detail.clone());
+                if small.is_empty() {
+                    // the episode could not be re-run to completion: replay by seed
+                    json!({"engine": "tuisim", "property": prop, "signature": sig, "kind": "episode-by-seed", "seed": seed.to_string(), "detail": d})
+                } else {
+                    json!({
+                        "engine": "tuisim",
+                        "property": prop,
+                        "signature": sig,
+                        "kind": "episode",
+                        "seed": seed.to_string(),
+                        "detail": d,
+                        "tape": small,
+                        "original_tape_len": original.len(),
+                        "shrink_executions": used,
+                        "episode": o["sample"].clone(),
+                        "stage": o["stage"].clone(),
+                        "frames": o["frames"].clone(),
+                        "event_hash": o["full_hash"].clone(),
+                    })
+                }
             };
             if std::fs::write(&path, serde_json::to_string_pretty(&doc).unwrap_or_default() + "\n").is_err() {
                 eprintln!("harness error: cannot write {path}");
@@ -500,21 +547,48 @@ fn run_replay(prop: &str, path: &str) -> i32 {
             std::thread::sleep(std::time::Duration::from_millis(100));
         }
     }
-    let env = match make_env() {
-        Ok(e) => e,
-        Err(e) => {
-            eprintln!("harness error: {e}");
-            return EXIT_HARNESS;
+    let limit = std::time::Duration::from_secs(std::env::var("VERIF_TUI_HANG_SECS").ok().and_then(|s| s.parse().ok()).unwrap_or(8) + 5);
+    let req = if doc["kind"].as_str() == Some("episode-by-seed") { json!({"seed": doc["seed"].clone()}) } else { json!({"tape": doc["tape"].clone()}) };
+    let trace = std::env::var_os("TUISIM_TRACE").is_some() || std::env::var_os("TUISIM_DUMP_FRAME").is_some();
+    let o = if trace {
+        // diagnostics print from inside the episode: run it in this process
+        let env = match make_env() {
+            Ok(e) => e,
+            Err(e) => {
+                eprintln!("harness error: {e}");
+                return EXIT_HARNESS;
+            }
+        };
+        let tape = match req["tape"].as_array() {
+            Some(a) => Tape::from_values(a.iter().filter_map(|v| v.as_u64().map(|x| x as u32)).collect()),
+            None => Tape::from_seed(req["seed"].as_str().and_then(|s| s.parse().ok()).unwrap_or(0)),
+        };
+        let o = run_episode(tape, &env, true);
+        cleanup(&env);
+        json!({
+            "stage": o.stage,
+            "frames": o.frames,
+            "full_hash": format!("{:016x}", o.full_hash),
+            "violations": o.violations.iter().map(|v| json!({"prop": v.prop, "sig": v.sig, "detail": v.detail})).collect::<Vec<_>>(),
+        })
+    } else {
+        match exec_episode(&req, limit) {
+            Some(o) => o,
+            None => {
+                println!("replay {path}: the episode did not finish within {} s", limit.as_secs());
+                return EXIT_OK;
+            }
         }
     };
-    let tape: Vec<u32> = doc["tape"].as_array().map(|a| a.iter().filter_map(|v| v.as_u64().map(|x| x as u32)).collect()).unwrap_or_default();
-    let o = run_episode(Tape::from_values(tape), &env, true);
-    cleanup(&env);
-    println!("replay {path}: stage={} frames={} event_hash={:016x}", o.stage, o.frames, o.full_hash);
-    for v in &o.violations {
-        println!("  {} {}: {}", v.prop, v.sig, v.detail);
+    println!("replay {path}: stage={} frames={} event_hash={}", o["stage"], o["frames"], o["full_hash"].as_str().unwrap_or(""));
+    let viols: Vec<(String, String, String)> = o["violations"]
+        .as_array()
+        .map(|a| a.iter().map(|v| (v["prop"].as_str().unwrap_or("").to_string(), v["sig"].as_str().unwrap_or("").to_string(), v["detail"].as_str().unwrap_or("").to_string())).collect())
+        .unwrap_or_default();
+    for (p, sg, d) in &viols {
+        println!("  {p} {sg}: {d}");
     }
-    if o.violations.iter().any(|v| v.prop == prop && v.sig == want) {
+    if viols.iter().any(|(p, sg, _)| p.as_str() == prop && sg.as_str() == want) {
         println!("VIOLATION property={prop} replay={path}");
         EXIT_VIOLATION
     } else {
@@ -552,6 +626,36 @@ fn main() {
                         }
                     }
                     cleanup(&env);
+                    EXIT_OK
+                }
+                Err(_) => EXIT_HARNESS,
+            }
+        }
+        Some("exec") => {
+            // one episode on behalf of the parent (shrinking, replay): request on stdin
+            // ({"seed": "..."} or {"tape": [...]}), full outcome as one JSON line on stdout
+            let mut text = String::new();
+            let _ = std::io::Read::read_to_string(&mut std::io::stdin(), &mut text);
+            let req: Value = serde_json::from_str(&text).unwrap_or(Value::Null);
+            match make_env() {
+                Ok(env) => {
+                    let tape = match req["tape"].as_array() {
+                        Some(a) => Tape::from_values(a.iter().filter_map(|v| v.as_u64().map(|x| x as u32)).collect()),
+                        None => Tape::from_seed(req["seed"].as_str().and_then(|s| s.parse().ok()).unwrap_or(0)),
+                    };
+                    let o = run_episode(tape, &env, true);
+                    cleanup(&env);
+                    println!(
+                        "{}",
+                        json!({
+                            "stage": o.stage,
+                            "frames": o.frames,
+                            "full_hash": format!("{:016x}", o.full_hash),
+                            "tape": o.tape,
+                            "sample": o.sample,
+                            "violations": o.violations.iter().map(|v| json!({"prop": v.prop, "sig": v.sig, "detail": v.detail})).collect::<Vec<_>>(),
+                        })
+                    );
                     EXIT_OK
                 }
                 Err(_) => EXIT_HARNESS,
